@@ -523,7 +523,9 @@ def r5_reads_before_partial_revert(ctx):
                         continue
                     bad = [a for a in ({name} | g.ancestors(name)) & (g.descendants(v) | {v}) if axes.get(a) not in ("IND",)]
                     key = (name, tuple(sorted(bad)))
-                    if bad:
+                    if bad and all(str(axes.get(b)).startswith("UNKNOWN") for b in bad):
+                        ctx.unknown("C02.R5", sf.f, t, f"`{name}` in {g.cfg.name}: the axis-0 domain could not evaluate {sorted(bad)[:3]} ({str(axes.get(sorted(bad)[0]))[:120]})", instance=f"{g.cfg.name}:{v}")
+                    elif bad:
                         ctx.violation("C02.R5", sf.f, t, f"`{name}` read before revert(~accepted) mixes individuals in {g.cfg.name} via {sorted(bad)[:3]} "
                                       f"(axis-0 {[axes.get(b) for b in sorted(bad)[:3]]}): its cached value is wrong for reverted individuals", instance=f"{g.cfg.name}:{v}")
                     else:
@@ -606,6 +608,19 @@ def rules(ctx):
     # a revert restores `_values` from `_last_fork`: nothing else in a State may remember values (same rule as C01.R1d)
     from .c01 import r1d_no_other_cache
     r1d_no_other_cache(ctx, rid="C02.R9")
+    # "rejected individuals get their state back, accepted ones keep the proposal": the mask handed to the revert is the outcome of the decision,
+    # not a rewritten copy of it (same rule as C03.R2b)
+    from .c03 import r2b_outcome_used_as_drawn
+    r2b_outcome_used_as_drawn(ctx, rid="C02.R2b")
+    # a REF snapshot holds the very tensors of the state: a value read from the state and then modified in place changes what a revert
+    # restores (and what is kept for accepted individuals) - the restored derived values no longer match the restored ancestors
+    from ._shared import inplace_on_state_values
+    ctx.rule("C02.R10", "no in-place write into a tensor read from a state (the snapshot a revert restores shares it)", 8)
+    sites, holders = inplace_on_state_values(ctx)
+    for fn, node, desc in sites:
+        ctx.violation("C02.R10", fn, node, desc + ": the snapshot kept for a revert holds the same tensor, so both the restored and the kept values are rewritten and no longer those of their ancestors")
+    for fn, names in holders:
+        ctx.ok("C02.R10", fn, fn.node, f"locals aliasing state values {names}: never written in place", construct=f"def {fn.name}")
     ctx.trust("torch.where selects element-wise without arithmetic on the unselected operand")
     ctx.assume("samplers are the only callers of State.revert during sampling (checked for C13)")
 
